@@ -34,6 +34,14 @@ RULES = {
            "with reopen / historical-root / crash-in-commit steps; distinct = distinct (model size, committed root) digests; non-trivial = the run contained at least one restart or crash fault",
 }
 
+_CHAIN = ("one case = a seeded run of the CHAIN world: a node under test on a simulated disk receives, in a generated order with duplicates, children before parents and interleaved branches, "
+          "the blocks of a tree grown by up to 4 real producer nodes (shared/conflicting transfers) plus forged variants (bad state/receipts/tx root re-signed, altered body under a genuine id, altered id over a genuine body, destroyed signature, forged tx inside; descendants re-linked and re-signed), "
+          "with clean restarts in between. A model of the specified fork choice (longest fully valid branch, first-seen on ties, one orphan per parent) runs next to it. distinct = distinct (stored blocks, best height, orphans, branches) digests; non-trivial = a fork, forgery or restart occurred. ")
+RULES.update({
+    "C05": _CHAIN + "Oracle after every delivery: best links by parent hash to genesis; height index equals that path and has nothing above best; every main-chain tx resolves to (block, index) and has a receipt; receipts per main block with txs; txs only on abandoned branches are not reported confirmed; state-db root = best block's root and carries the state marker; no reorg marker; a rejected block leaves best/state/raw chain store untouched; every stored block sits under the digest of its own header.",
+    "C07": _CHAIN + "Oracle after every delivery: node best = model best (longer valid branch adopted; shorter/equal/invalid never displaces); on a reorg the txs handed back to the pool are exactly txs(old branch) - txs(new branch); at the end the node accepts one more block on its own tip and its full state (all accounts) equals that of a reference node that only ever saw the winning branch.",
+})
+
 REALSTUB = {
     "*": {"real": ["code under test as named in DESIGN.md section 5"], "stub": ["LuaJIT VM (contract/zz_vm_stub.go)", "disk (simdisk implements aergo-lib db.DB)"]},
     "C10": {"real": ["pkg/trie (Update, Commit, StageUpdates, Get, LoadCache)", "internal/common.Hasher"],
@@ -67,6 +75,12 @@ MAN = {
     "C12": {"text": "seeded search over histories of puts, contract sessions, nested snapshots/rollbacks, commits and restarts on the real BlockState/StateDB/ContractState over a simulated disk, compared read-by-read with a model holding an explicit snapshot stack and root-by-root with a fresh state built from surviving writes only.",
             "ref": "5 C12", "note": "trusted: the model; API usage restricted to the executor's discipline (one Update per block state, sessions staged or rolled back to their savepoint)",
             "technique": "deterministic simulation: seeded operation histories with rollback/restart against a reference model with an explicit snapshot stack"},
+    "C05": {"text": "seeded search over block trees (forks, orphans, duplicates, forged and invalid blocks, restarts) delivered in generated orders to a real ChainService on a simulated disk; the full C05 invariant set is evaluated through the query surface and a raw key scan after every delivery. Found and fixed three genuine defects (stale signature verdict, refused reorg leaving state at the branch point, sender-supplied block id).",
+            "ref": "5 C05", "note": "trusted: the fork-choice model (longest valid branch, first seen wins ties), the harness hub adapters, VM stub; permissive consensus plug (no slot/timestamp veto) so that arbitrary trees are admissible",
+            "technique": "deterministic simulation: seeded block-tree arrival orders with forged/invalid blocks and restarts, invariants checked after every delivered block, ddmin-minimised replay"},
+    "C07": {"text": "seeded search over competing branches (all fork depths/length differences in bounds, shared and conflicting txs, invalid block at any position of the longer branch, any interleaving incl. children first); node best vs a model of the specified fork choice after every delivery, exact hand-back set on reorg, final full-state equality with a reference node that only saw the winning branch, and the node must still extend its own tip.",
+            "ref": "5 C07", "note": "trusted: the fork-choice model, reference node wiring, VM stub; LIB-limited forks are covered by the DPOS world (C08), not here",
+            "technique": "deterministic simulation: seeded delivery interleavings of competing branches against a reference fork-choice model and a reference node"},
     "C10": {"text": "seeded search over histories of update/delete batches, restarts, historical-root reads and crashes inside the commit on the real pkg/trie over a simulated disk; every step is compared with a map model and the root with a freshly built trie (history independence). Sampling, not proof; found and fixed one genuine defect.",
             "ref": "5 C10", "note": "trusted: the map model, simdisk's write-unit semantics (tx atomic, bulk chunked), sha256",
             "technique": "deterministic simulation: seeded operation histories + crash/restart fault injection against a reference map model, ddmin-minimised replay"},
